@@ -328,6 +328,10 @@ func catalogue() []*input {
 	opts := leafOpts()
 	for _, oa := range opts {
 		for _, ob := range opts {
+			if ob.tag == "f0" || ob.tag == "dE" {
+				// b ranges over a subset: the code treats names symmetrically.
+				continue
+			}
 			in := &input{name: "w1/a=" + oa.tag + ",b=" + ob.tag, dirs: []dirSpec{{}}}
 			oa.add(in, 0, "a")
 			ob.add(in, 0, "b")
